@@ -1,21 +1,1054 @@
-//! Monitor for property C01 (see /verif/DESIGN.md §6).
+//! Monitor for property C01 - group scoping (DESIGN.md §6 C01).
+//!
+//! Events: in-language reads `[rK:<text>]` of every tracked target after every `}` and at random
+//! points, `\vprobe` snapshots (current font, H2 stack sizes, registers read straight from state).
+//! Oracle: two independent formulations that must agree with each other and with the VM:
+//!  (A) the declarative rule of the statement (stack of snapshots + "last global value");
+//!  (B) TeX's eqtb/save-stack algorithm (eq_define / geq_define / eq_save / unsave, §274-283).
+//! Plus the H2 lockstep invariant: all per-group stacks have the model's depth.
+
+use serde_json::json;
+use std::collections::HashMap;
 use vcore::*;
+use vstate::texlang::vm::VM;
+use vstate::{Event, VState, VmOptions};
 
 pub struct M;
 pub static MONITOR: M = M;
+
+// ------------------------------------------------------------------------------------------
+// targets
+
+#[derive(Clone, Copy, Debug, PartialEq, Eq, Hash)]
+pub enum Kind {
+    Count,
+    Dimen,
+    Skip,
+    Toks,
+    Mac,
+    CountDef,
+    CharDef,
+    CatCode,
+    EndLineChar,
+    GlobalDefs,
+    Font,
+}
+
+#[derive(Clone, Copy, Debug, PartialEq, Eq, Hash)]
+pub struct Target {
+    pub kind: Kind,
+    /// register index / name index / character index
+    pub n: u8,
+}
+
+const MAC_NAMES: [&str; 4] = ["\\ma", "\\mb", "~", "!"];
+const COUNTDEF_NAMES: [&str; 2] = ["\\ca", "|"];
+const CHARDEF_NAMES: [&str; 2] = ["\\cb", "?"];
+const CATCODE_CHARS: [char; 2] = ['Q', 'Z'];
+const CATCODE_VALUES: [i64; 6] = [3, 4, 7, 8, 11, 12];
+const FONT_NAMES: [&str; 4] = ["\\nullfont", "\\fa", "\\fb", "\\fc"];
+
+fn all_targets() -> Vec<Target> {
+    let mut v = vec![];
+    for n in 1..=3 {
+        v.push(Target { kind: Kind::Count, n });
+    }
+    for n in 1..=2 {
+        v.push(Target { kind: Kind::Dimen, n });
+        v.push(Target { kind: Kind::Skip, n });
+        v.push(Target { kind: Kind::Toks, n });
+    }
+    for n in 0..4 {
+        v.push(Target { kind: Kind::Mac, n });
+    }
+    for n in 0..2 {
+        v.push(Target { kind: Kind::CountDef, n });
+        v.push(Target { kind: Kind::CharDef, n });
+        v.push(Target { kind: Kind::CatCode, n });
+    }
+    v.push(Target { kind: Kind::EndLineChar, n: 0 });
+    v.push(Target { kind: Kind::GlobalDefs, n: 0 });
+    v.push(Target { kind: Kind::Font, n: 0 });
+    v
+}
+
+impl Target {
+    fn label(&self) -> String {
+        match self.kind {
+            Kind::Count => format!("\\count{}", self.n),
+            Kind::Dimen => format!("\\dimen{}", self.n),
+            Kind::Skip => format!("\\skip{}", self.n),
+            Kind::Toks => format!("\\toks{}", self.n),
+            Kind::Mac => format!("macro {}", MAC_NAMES[self.n as usize]),
+            Kind::CountDef => format!("countdef {}", COUNTDEF_NAMES[self.n as usize]),
+            Kind::CharDef => format!("chardef {}", CHARDEF_NAMES[self.n as usize]),
+            Kind::CatCode => format!("\\catcode`{}", CATCODE_CHARS[self.n as usize]),
+            Kind::EndLineChar => "\\endlinechar".into(),
+            Kind::GlobalDefs => "\\globaldefs".into(),
+            Kind::Font => "current font".into(),
+        }
+    }
+    fn class(&self) -> String {
+        match self.kind {
+            Kind::Mac | Kind::CountDef | Kind::CharDef => {
+                let name = match self.kind {
+                    Kind::Mac => MAC_NAMES[self.n as usize],
+                    Kind::CountDef => COUNTDEF_NAMES[self.n as usize],
+                    _ => CHARDEF_NAMES[self.n as usize],
+                };
+                let who = if name.starts_with('\\') { "cs" } else { "active" };
+                format!("{:?}-{}", self.kind, who)
+            }
+            _ => format!("{:?}", self.kind),
+        }
+    }
+}
+
+// ------------------------------------------------------------------------------------------
+// programs
+
+#[derive(Clone, Copy, Debug, PartialEq, Eq, Hash)]
+pub enum How {
+    /// plain assignment
+    Set,
+    /// `\advance` (Count only)
+    Advance,
+    /// `\gdef` (Mac only): global whatever the prefix says
+    Gdef,
+    /// `\let target = other macro name` (Mac only); the value is the index of the source name
+    Let,
+}
+
+#[derive(Clone, Copy, Debug, PartialEq, Eq, Hash)]
+pub enum Op {
+    Begin,
+    End,
+    Assign {
+        t: Target,
+        v: i64,
+        prefix_global: bool,
+        how: How,
+    },
+    /// read every tracked target (in-language) and probe
+    ReadAll,
+    /// read one target
+    Read(Target),
+}
+
+fn initial_value(t: Target) -> i64 {
+    match t.kind {
+        Kind::Count => 100 + t.n as i64,
+        Kind::Dimen => 110 + t.n as i64,
+        Kind::Skip => 120 + t.n as i64,
+        Kind::Toks => 130 + t.n as i64,
+        Kind::Mac => 140 + t.n as i64,
+        Kind::CountDef => 1 + t.n as i64,
+        Kind::CharDef => 65 + t.n as i64,
+        Kind::CatCode => 11,
+        Kind::EndLineChar => 13,
+        Kind::GlobalDefs => 0,
+        Kind::Font => 0,
+    }
+}
+
+fn assign_text(t: Target, v: i64, how: How) -> String {
+    match (t.kind, how) {
+        (Kind::Count, How::Advance) => format!("\\advance\\count{} by {}\\relax ", t.n, v),
+        (Kind::Count, _) => format!("\\count{}={}\\relax ", t.n, v),
+        (Kind::Dimen, _) => format!("\\dimen{}={}pt\\relax ", t.n, v),
+        (Kind::Skip, _) => format!("\\skip{}={}pt plus {}pt\\relax ", t.n, v, v + 1),
+        (Kind::Toks, _) => format!("\\toks{}={{{}}}", t.n, v),
+        (Kind::Mac, How::Gdef) => format!("\\gdef{}{{{}}}", MAC_NAMES[t.n as usize], v),
+        (Kind::Mac, How::Let) => format!(
+            "\\let{}={}",
+            MAC_NAMES[t.n as usize], MAC_NAMES[v as usize]
+        ),
+        (Kind::Mac, _) => format!("\\def{}{{{}}}", MAC_NAMES[t.n as usize], v),
+        (Kind::CountDef, _) => format!("\\countdef{}={}\\relax ", COUNTDEF_NAMES[t.n as usize], v),
+        (Kind::CharDef, _) => format!("\\chardef{}={}\\relax ", CHARDEF_NAMES[t.n as usize], v),
+        (Kind::CatCode, _) => format!("\\catcode`\\{}={}\\relax ", CATCODE_CHARS[t.n as usize], v),
+        (Kind::EndLineChar, _) => format!("\\endlinechar={}\\relax ", v),
+        (Kind::GlobalDefs, _) => format!("\\globaldefs={}\\relax ", v),
+        (Kind::Font, _) => format!("{} ", FONT_NAMES[v as usize]),
+    }
+}
+
+fn read_text(t: Target) -> Option<String> {
+    Some(match t.kind {
+        Kind::Count => format!("\\the\\count{}\\relax ", t.n),
+        Kind::Dimen => format!("\\the\\dimen{}\\relax ", t.n),
+        Kind::Skip => format!("\\the\\skip{}\\relax ", t.n),
+        Kind::Toks => format!("\\the\\toks{}\\relax ", t.n),
+        Kind::Mac => MAC_NAMES[t.n as usize].to_string(),
+        Kind::CountDef => format!("\\the{}", COUNTDEF_NAMES[t.n as usize]),
+        Kind::CharDef => format!("\\the{}", CHARDEF_NAMES[t.n as usize]),
+        Kind::CatCode => format!("\\the\\catcode`\\{}\\relax ", CATCODE_CHARS[t.n as usize]),
+        Kind::EndLineChar => "\\the\\endlinechar ".to_string(),
+        Kind::GlobalDefs => "\\the\\globaldefs ".to_string(),
+        Kind::Font => return None, // read through \vprobe only
+    })
+}
+
+/// Text TeX prints for value `v` of target `t`, given the model's current values (a countdef
+/// alias prints the register it points to).
+fn expected_text(t: Target, v: i64, cur: &dyn Fn(Target) -> i64) -> String {
+    match t.kind {
+        Kind::Count | Kind::Toks | Kind::Mac | Kind::CharDef | Kind::CatCode => v.to_string(),
+        Kind::EndLineChar | Kind::GlobalDefs => v.to_string(),
+        Kind::Dimen => format!("{v}.0pt"),
+        Kind::Skip => format!("{v}.0pt plus {}.0pt", v + 1),
+        Kind::CountDef => cur(Target {
+            kind: Kind::Count,
+            n: v as u8,
+        })
+        .to_string(),
+        Kind::Font => v.to_string(),
+    }
+}
+
+const PREAMBLE_FIXED: &str = "\\catcode`\\~=13 \\catcode`\\!=13 \\catcode`\\|=13 \\catcode`\\?=13 \
+\\font\\fa=a \\font\\fb=b \\font\\fc=c ";
+
+fn preamble(targets: &[Target]) -> String {
+    let mut s = String::from(PREAMBLE_FIXED);
+    for t in targets {
+        match t.kind {
+            Kind::CatCode | Kind::EndLineChar | Kind::GlobalDefs | Kind::Font => {}
+            _ => s.push_str(&assign_text(*t, initial_value(*t), How::Set)),
+        }
+    }
+    s
+}
+
+// ------------------------------------------------------------------------------------------
+// Model A: the declarative rule of the statement
+
+#[derive(Clone)]
+struct ModelA {
+    cur: HashMap<Target, i64>,
+    frames: Vec<(HashMap<Target, i64>, HashMap<Target, i64>)>, // (snapshot, last global value)
+}
+
+impl ModelA {
+    fn new(targets: &[Target]) -> Self {
+        ModelA {
+            cur: targets.iter().map(|t| (*t, initial_value(*t))).collect(),
+            frames: vec![],
+        }
+    }
+    fn begin(&mut self) {
+        self.frames.push((self.cur.clone(), HashMap::new()));
+    }
+    fn end(&mut self) {
+        let (snap, globals) = self.frames.pop().expect("model: no group");
+        for (t, v) in snap {
+            let nv = globals.get(&t).copied().unwrap_or(v);
+            self.cur.insert(t, nv);
+        }
+    }
+    fn assign(&mut self, t: Target, v: i64, global: bool) {
+        self.cur.insert(t, v);
+        if global {
+            for f in &mut self.frames {
+                f.1.insert(t, v);
+            }
+        }
+    }
+}
+
+// ------------------------------------------------------------------------------------------
+// Model B: TeX's eqtb + save stack (§268-283)
+
+#[derive(Clone)]
+struct ModelB {
+    eqtb: HashMap<Target, (i64, u32)>, // (value, level); level_one = 1
+    save: Vec<Option<(Target, i64, u32)>>, // None = level boundary
+    cur_level: u32,
+}
+
+impl ModelB {
+    fn new(targets: &[Target]) -> Self {
+        ModelB {
+            eqtb: targets
+                .iter()
+                .map(|t| (*t, (initial_value(*t), 1)))
+                .collect(),
+            save: vec![],
+            cur_level: 1,
+        }
+    }
+    fn begin(&mut self) {
+        self.save.push(None);
+        self.cur_level += 1;
+    }
+    // §277 eq_define / §279 geq_define
+    fn assign(&mut self, t: Target, v: i64, global: bool) {
+        if global {
+            self.eqtb.insert(t, (v, 1));
+            return;
+        }
+        let (old, lvl) = self.eqtb[&t];
+        if lvl != self.cur_level {
+            self.save.push(Some((t, old, lvl))); // eq_save
+        }
+        self.eqtb.insert(t, (v, self.cur_level));
+    }
+    // §281 unsave, §283 restore: "if eq_level(p)=level_one then retain else restore"
+    fn end(&mut self) {
+        while let Some(e) = self.save.pop() {
+            match e {
+                None => break,
+                Some((t, old, lvl)) => {
+                    if self.eqtb[&t].1 == 1 {
+                        // retain the global value, destroy the saved one
+                    } else {
+                        self.eqtb.insert(t, (old, lvl));
+                    }
+                }
+            }
+        }
+        self.cur_level -= 1;
+    }
+    fn cur(&self, t: Target) -> i64 {
+        self.eqtb[&t].0
+    }
+}
+
+// ------------------------------------------------------------------------------------------
+// generation
+
+fn fresh(counter: &mut i64) -> i64 {
+    *counter += 1;
+    *counter
+}
+
+fn gen_value(t: Target, rng: &mut Rng, counter: &mut i64) -> (i64, How) {
+    match t.kind {
+        Kind::Count => {
+            if rng.chance(1, 5) {
+                (fresh(counter) * 10007, How::Advance)
+            } else {
+                (fresh(counter), How::Set)
+            }
+        }
+        Kind::Dimen | Kind::Skip | Kind::Toks => (fresh(counter), How::Set),
+        Kind::Mac => match rng.below(10) {
+            0 | 1 => (fresh(counter), How::Gdef),
+            2 | 3 => {
+                // \let to another of the macro names
+                let mut src = rng.below(4) as i64;
+                if src == t.n as i64 {
+                    src = (src + 1) % 4;
+                }
+                (src, How::Let)
+            }
+            _ => (fresh(counter), How::Set),
+        },
+        Kind::CountDef => (1 + rng.below(3) as i64, How::Set),
+        Kind::CharDef => (1 + (fresh(counter) % 250), How::Set),
+        Kind::CatCode => (*rng.pick(&CATCODE_VALUES), How::Set),
+        Kind::EndLineChar => (
+            match rng.below(4) {
+                0 => -1,
+                1 => 13,
+                _ => 65 + rng.below(26) as i64,
+            },
+            How::Set,
+        ),
+        Kind::GlobalDefs => (rng.range_i64(-1, 1), How::Set),
+        Kind::Font => (rng.below(4) as i64, How::Set),
+    }
+}
+
+fn can_prefix_global(t: Target) -> bool {
+    // `\global\chardef` is rejected by texcraft with an explicit "cannot be prefixed" error:
+    // an unsupported feature, not probed (DESIGN §3.6). \chardef is made global via \globaldefs.
+    t.kind != Kind::CharDef
+}
+
+fn gen_random_program(rng: &mut Rng, targets: &[Target]) -> Vec<Op> {
+    let n_ops = rng.range_usize(10, 80);
+    let mut ops = vec![];
+    let mut depth = 0usize;
+    let mut counter: i64 = 1000;
+    // a few "hot" targets get most of the traffic, so that local/global orders collide
+    let hot: Vec<Target> = (0..rng.range_usize(1, 4))
+        .map(|_| *rng.pick(targets))
+        .collect();
+    let max_depth = rng.range_usize(1, 8);
+    while ops.len() < n_ops {
+        match rng.below(100) {
+            0..=17 if depth < max_depth => {
+                ops.push(Op::Begin);
+                depth += 1;
+            }
+            18..=31 if depth > 0 => {
+                ops.push(Op::End);
+                ops.push(Op::ReadAll);
+                depth -= 1;
+            }
+            32..=39 => ops.push(Op::ReadAll),
+            40..=47 => ops.push(Op::Read(*rng.pick(targets))),
+            _ => {
+                let t = if rng.chance(3, 4) {
+                    *rng.pick(&hot)
+                } else {
+                    *rng.pick(targets)
+                };
+                let (v, how) = gen_value(t, rng, &mut counter);
+                let prefix_global = can_prefix_global(t) && rng.chance(2, 5);
+                ops.push(Op::Assign {
+                    t,
+                    v,
+                    prefix_global,
+                    how,
+                });
+                // biased: follow with the opposite scope on the same target in the same group
+                if rng.chance(1, 3) {
+                    let (v2, how2) = gen_value(t, rng, &mut counter);
+                    ops.push(Op::Assign {
+                        t,
+                        v: v2,
+                        prefix_global: can_prefix_global(t) && !prefix_global,
+                        how: how2,
+                    });
+                }
+            }
+        }
+    }
+    ops
+}
+
+/// Exhaustive phases: all sequences of length <= L over
+/// { {, }, local T1, global T1, local T2, global T2 } for a fixed target pair.
+const ENUM_PAIRS: [(Target, Target); 6] = [
+    (
+        Target { kind: Kind::Count, n: 1 },
+        Target { kind: Kind::Mac, n: 2 }, // ~ (active character)
+    ),
+    (
+        Target { kind: Kind::Dimen, n: 1 },
+        Target { kind: Kind::Mac, n: 0 }, // \ma
+    ),
+    (
+        Target { kind: Kind::Toks, n: 1 },
+        Target { kind: Kind::CountDef, n: 1 }, // | (active character)
+    ),
+    (
+        Target { kind: Kind::CatCode, n: 0 },
+        Target { kind: Kind::Font, n: 0 },
+    ),
+    (
+        Target { kind: Kind::Skip, n: 1 },
+        Target { kind: Kind::EndLineChar, n: 0 },
+    ),
+    (
+        Target { kind: Kind::CountDef, n: 0 },
+        Target { kind: Kind::Count, n: 2 },
+    ),
+];
+
+fn enum_len(tier: Tier) -> u32 {
+    match tier {
+        Tier::Quick => 6,
+        Tier::Thorough => 8,
+    }
+}
+
+fn enum_count(len: u32) -> u64 {
+    // sequences of length exactly 1..=len over 6 symbols
+    (1..=len).map(|l| 6u64.pow(l)).sum()
+}
+
+fn decode_enum(mut idx: u64, max_len: u32, pair: (Target, Target)) -> Option<Vec<Op>> {
+    let mut len = 1;
+    loop {
+        let n = 6u64.pow(len);
+        if idx < n {
+            break;
+        }
+        idx -= n;
+        len += 1;
+        if len > max_len {
+            return None;
+        }
+    }
+    let mut ops = vec![];
+    let mut depth = 0i32;
+    let mut counter: i64 = 1000;
+    let mut alt = 0u64;
+    for _ in 0..len {
+        let sym = idx % 6;
+        idx /= 6;
+        match sym {
+            0 => {
+                ops.push(Op::Begin);
+                depth += 1;
+            }
+            1 => {
+                if depth == 0 {
+                    return None; // `}` without a group: not a program of the quantifier
+                }
+                depth -= 1;
+                ops.push(Op::End);
+            }
+            s => {
+                let t = if s < 4 { pair.0 } else { pair.1 };
+                let global = s % 2 == 1;
+                alt += 1;
+                let v = match t.kind {
+                    Kind::CountDef => 1 + (alt % 3) as i64,
+                    Kind::CatCode => CATCODE_VALUES[(alt % 6) as usize],
+                    Kind::Font => 1 + (alt % 3) as i64,
+                    Kind::EndLineChar => 65 + (alt % 26) as i64,
+                    _ => fresh(&mut counter),
+                };
+                ops.push(Op::Assign {
+                    t,
+                    v,
+                    prefix_global: global,
+                    how: How::Set,
+                });
+            }
+        }
+        ops.push(Op::ReadAll);
+    }
+    Some(ops)
+}
+
+// ------------------------------------------------------------------------------------------
+// execution + checking
+
+struct Expect {
+    id: usize,
+    target: Target,
+    text: String,
+    depth: usize,
+}
+
+fn probe_fn(vm: &VM<VState>) -> serde_json::Value {
+    let s = vm.verif_snapshot();
+    let counts = vm.state.registers_i32.values();
+    json!({
+        "font": vm.current_font().0,
+        "commands_groups": s.commands_groups,
+        "active_char_groups": s.active_char_groups,
+        "save_stack_len": s.save_stack_len,
+        "save_stack_entries": s.save_stack_entries,
+        "font_stack_len": s.font_stack_len,
+        "exec_stack_len": s.exec_stack_len,
+        "counts": [counts[1], counts[2], counts[3]],
+    })
+}
+
+struct ProbeExpect {
+    depth: usize,
+    font: i64,
+    counts: [i64; 3],
+}
+
+pub struct Built {
+    pub text: String,
+    reads: Vec<Expect>,
+    probes: Vec<ProbeExpect>,
+    pub models_disagree: Option<String>,
+    classes: Vec<String>,
+    max_depth: usize,
+    /// the program contains a `\gdef` executed while \globaldefs<0
+    pub trigger_gdef_neg: bool,
+}
+
+/// Deviation models for listed known findings (DESIGN §3.5): the reference model with exactly
+/// one rule replaced by what the code does today.
+#[derive(Clone, Copy, Default, PartialEq, Eq)]
+pub struct Deviation {
+    /// C01-gdef-ignores-negative-globaldefs: `\gdef` stays global when \globaldefs<0
+    /// (TeX §1218: `if odd(cur_chr) and not global and (global_defs>=0) then a:=a+4`).
+    pub gdef_ignores_negative_globaldefs: bool,
+}
+
+/// Render the program and run both models alongside.
+pub fn build(ops: &[Op], targets: &[Target], dev: Deviation) -> Built {
+    let mut a = ModelA::new(targets);
+    let mut b = ModelB::new(targets);
+    let mut text = preamble(targets);
+    let mut reads = vec![];
+    let mut probes = vec![];
+    let mut disagree = None;
+    let mut classes = vec![];
+    let mut depth = 0usize;
+    let mut max_depth = 0usize;
+    let has = |t: Target| targets.contains(&t);
+    let mut ops: Vec<Op> = ops.to_vec();
+    // close what is open, read everything at the end
+    let opens = ops.iter().filter(|o| **o == Op::Begin).count();
+    let closes = ops.iter().filter(|o| **o == Op::End).count();
+    for _ in closes..opens {
+        ops.push(Op::End);
+        ops.push(Op::ReadAll);
+    }
+    ops.push(Op::ReadAll);
+    // for "order" classes: what happened to each target in the current group so far
+    let mut hist: Vec<HashMap<Target, Vec<bool>>> = vec![HashMap::new()];
+    let mut trigger_gdef_neg = false;
+    for op in &ops {
+        match *op {
+            Op::Begin => {
+                text.push('{');
+                a.begin();
+                b.begin();
+                depth += 1;
+                max_depth = max_depth.max(depth);
+                hist.push(HashMap::new());
+            }
+            Op::End => {
+                text.push('}');
+                a.end();
+                b.end();
+                depth -= 1;
+                hist.pop();
+            }
+            Op::Assign {
+                t,
+                v,
+                prefix_global,
+                how,
+            } => {
+                if !has(t) {
+                    continue;
+                }
+                if prefix_global {
+                    text.push_str("\\global");
+                }
+                text.push_str(&assign_text(t, v, how));
+                // effective scope: \globaldefs overrides the prefix (§1211/§1214)
+                let gdt = Target {
+                    kind: Kind::GlobalDefs,
+                    n: 0,
+                };
+                let gd = if has(gdt) { b.cur(gdt) } else { 0 };
+                let mut global = if gd > 0 {
+                    true
+                } else if gd < 0 {
+                    false
+                } else {
+                    prefix_global
+                };
+                if how == How::Gdef && gd >= 0 {
+                    global = true;
+                }
+                if how == How::Gdef && gd < 0 {
+                    // §1218: \gdef = \global\def, and negative \globaldefs cancels \global
+                    global = dev.gdef_ignores_negative_globaldefs;
+                    trigger_gdef_neg = true;
+                }
+                let value = match how {
+                    How::Advance => b.cur(t).wrapping_add(v),
+                    How::Let => b.cur(Target {
+                        kind: Kind::Mac,
+                        n: v as u8,
+                    }),
+                    _ => v,
+                };
+                a.assign(t, value, global);
+                b.assign(t, value, global);
+                let h = hist.last_mut().unwrap().entry(t).or_default();
+                let order = match (h.last(), global) {
+                    (Some(false), true) => "local-then-global",
+                    (Some(true), false) => "global-then-local",
+                    (Some(true), true) => "global-then-global",
+                    (Some(false), false) => "local-then-local",
+                    (None, true) => "first-global",
+                    (None, false) => "first-local",
+                };
+                h.push(global);
+                classes.push(format!(
+                    "assign:{}:{}:depth{}:{}",
+                    t.class(),
+                    if global { "global" } else { "local" },
+                    depth.min(3),
+                    order
+                ));
+            }
+            Op::ReadAll | Op::Read(_) => {
+                let which: Vec<Target> = match *op {
+                    Op::Read(t) => vec![t],
+                    _ => targets.to_vec(),
+                };
+                for t in which {
+                    if !has(t) {
+                        continue;
+                    }
+                    let va = a.cur[&t];
+                    let vb = b.cur(t);
+                    if va != vb && disagree.is_none() {
+                        disagree = Some(format!(
+                            "models disagree on {}: declarative {} vs eqtb {}",
+                            t.label(),
+                            va,
+                            vb
+                        ));
+                    }
+                    if let Some(rt) = read_text(t) {
+                        let id = reads.len();
+                        text.push_str(&format!("[r{id}:{rt}]"));
+                        let bb = &b;
+                        reads.push(Expect {
+                            id,
+                            target: t,
+                            text: expected_text(t, vb, &|x| bb.cur(x)),
+                            depth,
+                        });
+                    }
+                }
+                if matches!(op, Op::ReadAll) {
+                    text.push_str("\\vprobe ");
+                    let c = |n: u8| {
+                        let t = Target { kind: Kind::Count, n };
+                        if has(t) {
+                            b.cur(t)
+                        } else {
+                            0
+                        }
+                    };
+                    let ft = Target { kind: Kind::Font, n: 0 };
+                    probes.push(ProbeExpect {
+                        depth,
+                        font: if has(ft) { b.cur(ft) } else { 0 },
+                        counts: [c(1), c(2), c(3)],
+                    });
+                }
+            }
+        }
+    }
+    Built {
+        text,
+        reads,
+        probes,
+        models_disagree: disagree,
+        classes,
+        max_depth,
+        trigger_gdef_neg,
+    }
+}
+
+/// Parse `[rK:text]` records out of the VM's output.
+fn parse_reads(out: &str) -> Result<Vec<(usize, String)>, String> {
+    let mut v = vec![];
+    let mut rest = out;
+    while let Some(pos) = rest.find("[r") {
+        let after = &rest[pos + 2..];
+        let colon = after.find(':').ok_or("record without ':'")?;
+        let id: usize = after[..colon]
+            .parse()
+            .map_err(|_| format!("bad record id {:?}", &after[..colon]))?;
+        let close = after.find(']').ok_or("record without ']'")?;
+        v.push((id, after[colon + 1..close].to_string()));
+        rest = &after[close + 1..];
+    }
+    Ok(v)
+}
+
+struct Observed {
+    outcome: vstate::Outcome,
+    out: String,
+    events: Vec<Event>,
+    probes: Vec<serde_json::Value>,
+    final_snap: vstate::texlang::vm::VerifSnapshot,
+}
+
+/// Compare what the VM did with what a model run expects. `None` = agreement.
+fn compare(built: &Built, o: &Observed) -> Option<(String, serde_json::Value)> {
+    if let Some(title) = o.outcome.err_title() {
+        return Some((
+            format!("unexpected-error:{title}"),
+            json!({"error": format!("{:?}", o.outcome)}),
+        ));
+    }
+    let got = match parse_reads(&o.out) {
+        Ok(g) => g,
+        Err(e) => return Some(("malformed-output".into(), json!({"parse": e}))),
+    };
+    if got.len() != built.reads.len() {
+        return Some((
+            "read-count-mismatch".into(),
+            json!({"expected": built.reads.len(), "got": got.len()}),
+        ));
+    }
+    for (e, (gid, gtext)) in built.reads.iter().zip(got.iter()) {
+        if e.id != *gid {
+            return Some((
+                "read-order-mismatch".into(),
+                json!({"expected_id": e.id, "got_id": gid}),
+            ));
+        }
+        if &e.text != gtext {
+            return Some((
+                format!("wrong-value:{}", e.target.class()),
+                json!({
+                    "read": e.id, "target": e.target.label(), "depth": e.depth,
+                    "expected": e.text, "got": gtext
+                }),
+            ));
+        }
+    }
+    // probes: font, registers read straight from state, H2 lockstep
+    if o.probes.len() != built.probes.len() {
+        return Some((
+            "probe-count-mismatch".into(),
+            json!({"expected": built.probes.len(), "got": o.probes.len()}),
+        ));
+    }
+    for (i, (e, g)) in built.probes.iter().zip(o.probes.iter()).enumerate() {
+        if g["font"].as_i64() != Some(e.font) {
+            return Some((
+                "wrong-value:Font".into(),
+                json!({"probe": i, "depth": e.depth, "expected_font": e.font, "got": g}),
+            ));
+        }
+        let gc: Vec<i64> = g["counts"]
+            .as_array()
+            .map(|a| a.iter().map(|x| x.as_i64().unwrap_or(-1)).collect())
+            .unwrap_or_default();
+        let want: Vec<i64> = e.counts.to_vec();
+        if gc != want {
+            return Some((
+                "wrong-state:Count".into(),
+                json!({"probe": i, "depth": e.depth, "expected": want, "got": gc}),
+            ));
+        }
+        for comp in [
+            "commands_groups",
+            "active_char_groups",
+            "save_stack_len",
+            "font_stack_len",
+        ] {
+            if g[comp].as_u64() != Some(e.depth as u64) {
+                return Some((
+                    format!("lockstep:{comp}"),
+                    json!({"probe": i, "model_depth": e.depth, "got": g}),
+                ));
+            }
+        }
+        if g["exec_stack_len"].as_u64() != Some(1) {
+            // \vprobe itself is the one executing command
+            return Some(("lockstep:exec_stack_len".into(), json!({"probe": i, "got": g})));
+        }
+    }
+    let f = &o.final_snap;
+    if f.commands_groups != 0
+        || f.active_char_groups != 0
+        || f.save_stack_len != 0
+        || f.font_stack_len != 0
+        || f.exec_stack_len != 0
+        || f.shutdown_pending
+    {
+        return Some((
+            "leftover-after-run".into(),
+            json!({"snapshot": format!("{f:?}")}),
+        ));
+    }
+    None
+}
+
+fn check_program(ops: &[Op], targets: &[Target], obs: &mut Obs, what: &str) {
+    let built = build(ops, targets, Deviation::default());
+    if let Some(d) = &built.models_disagree {
+        obs.inconclusive(format!("reference models disagree: {d}"));
+        return;
+    }
+    let opts = VmOptions::default();
+    let text = built.text.clone();
+    let r = vcore::catch(move || {
+        let mut vm = vstate::new_vm(&opts);
+        vm.state.mon.probe_fn = Some(probe_fn);
+        let outcome = vstate::run(&mut vm, "c01.tex", &text);
+        let out = vstate::take_out(&mut vm);
+        let events = vstate::take_events(&mut vm);
+        let probes = std::mem::take(&mut vm.state.mon.probes);
+        let final_snap = vm.verif_snapshot();
+        Observed {
+            outcome,
+            out,
+            events,
+            probes,
+            final_snap,
+        }
+    });
+    let o = match r {
+        Ok(x) => x,
+        Err(p) => {
+            obs.repo_panic(&p, json!({"program": built.text, "what": what}));
+            return;
+        }
+    };
+    obs.count("programs_run");
+    obs.add("group_closes", ops.iter().filter(|o| **o == Op::End).count() as u64);
+    obs.add(&format!("programs_max_depth_{}", built.max_depth.min(8)), 1);
+    for c in &built.classes {
+        obs.count(c);
+    }
+    if let Some((sig, mismatch)) = compare(&built, &o) {
+        // Attribute to a listed finding only if its trigger holds AND its deviation model
+        // predicts the observation exactly.
+        if built.trigger_gdef_neg {
+            let dev = Deviation {
+                gdef_ignores_negative_globaldefs: true,
+            };
+            let built_dev = build(ops, targets, dev);
+            if built_dev.models_disagree.is_none() && compare(&built_dev, &o).is_none() {
+                obs.known(
+                    "C01-gdef-ignores-negative-globaldefs",
+                    json!({"program": built.text, "output": o.out, "true_model_mismatch": mismatch}),
+                );
+                return;
+            }
+        }
+        obs.violation(
+            sig,
+            json!({"program": built.text, "what": what, "output": o.out, "mismatch": mismatch}),
+        );
+        return;
+    }
+    obs.add("reads_checked", built.reads.len() as u64);
+    obs.add("probes_checked", built.probes.len() as u64);
+    let font_events = o
+        .events
+        .iter()
+        .filter(|e| matches!(e, Event::EnableFont(_)))
+        .count();
+    obs.add("enable_font_events", font_events as u64);
+    obs.nontrivial(&built.text);
+    if obs.wants_sample() {
+        obs.sample(json!({
+            "what": what, "program": built.text, "output": o.out,
+            "reads": built.reads.len(), "probes": built.probes.len()
+        }));
+    }
+}
 
 impl Monitor for M {
     fn id(&self) -> &'static str {
         "C01"
     }
     fn rule(&self) -> String {
-        "not built yet".into()
+        "single-line TeX programs over {, }, local/\\global/\\gdef/\\let/\\advance assignments (fresh value per \
+         assignment) to 23 tracked targets (3 \\count, 2 \\dimen, 2 \\skip, 2 \\toks, macros \\ma \\mb ~ !, \\countdef \
+         aliases \\ca |, \\chardef \\cb ?, \\catcode of Q Z, \\endlinechar, \\globaldefs, current font); every target is \
+         read back in-language after every } and at random points, plus \\vprobe state snapshots. enum-*: all op \
+         sequences up to the tier's length over 6 symbols for a fixed target pair; random: 10-80 ops at depth <= 8. \
+         A case is non-trivial if the program ran and all its reads were compared; distinct = distinct program text."
+            .into()
     }
     fn assumptions(&self) -> Vec<String> {
-        vec![]
+        vec![
+            "reference = TeX82 §268-283 (eq_define/geq_define/eq_save/unsave) and, independently, the declarative rule in the property statement; a case where the two disagree is INCONCLUSIVE".into(),
+            "\\global\\chardef is rejected by texcraft by design; \\chardef is made global through \\globaldefs only".into(),
+            "numbers are terminated by \\relax; programs are one line so \\endlinechar changes only affect the end of the line".into(),
+            "font identity observed through VM::current_font() at \\vprobe; H2 snapshot (guarded hook) gives stack sizes only".into(),
+        ]
     }
-    fn phases(&self, _tier: Tier) -> Vec<Phase> {
-        vec![]
+    fn phases(&self, tier: Tier) -> Vec<Phase> {
+        let n = enum_count(enum_len(tier));
+        let mut v = vec![
+            Phase::new("known", 8).batch(1),
+        ];
+        const NAMES: [&str; 6] = ["enum-0", "enum-1", "enum-2", "enum-3", "enum-4", "enum-5"];
+        for name in NAMES.iter() {
+            v.push(
+                Phase::new(name, n)
+                    .batch(512)
+                    .exhaustive("all sequences up to the tier's length over { {, }, local T1, global T1, local T2, global T2 } for this target pair, read-all after every op"),
+            );
+        }
+        v.push(Phase::new("random", tier.pick(40_000, 3_000_000)).batch(128));
+        v
     }
-    fn run_case(&self, _phase: &str, _idx: u64, _rng: &mut Rng, _obs: &mut Obs) {}
+    fn floors(&self, tier: Tier) -> Vec<(&'static str, u64)> {
+        let _ = tier;
+        vec![
+            ("programs_run", 50_000),
+            ("group_closes", 50_000),
+            ("reads_checked", 1_000_000),
+            ("assign:Count:global:depth2:local-then-global", 50),
+            ("assign:Count:local:depth2:global-then-local", 50),
+            ("assign:Mac-active:global:depth2:local-then-global", 50),
+            ("assign:Mac-active:local:depth1:first-local", 50),
+            ("assign:Font:global:depth2:local-then-global", 20),
+            ("assign:CatCode:global:depth2:local-then-global", 20),
+            ("programs_max_depth_8", 100),
+        ]
+    }
+    fn calibrate(&self, obs: &mut Obs) {
+        // The two models must agree on TeXbook-style facts.
+        let t = Target { kind: Kind::Count, n: 1 };
+        let mut b = ModelB::new(&[t]);
+        b.begin();
+        b.begin();
+        b.assign(t, 2, false);
+        b.assign(t, 3, true);
+        b.end();
+        b.end();
+        if b.cur(t) != 3 {
+            obs.inconclusive("model B: {{local; global}} must leave the global value");
+        }
+        let mut a = ModelA::new(&[t]);
+        a.begin();
+        a.assign(t, 5, true);
+        a.assign(t, 6, false);
+        a.end();
+        if a.cur[&t] != 5 {
+            obs.inconclusive("model A: {global; local} must leave the global value");
+        }
+        obs.count("calibration_checks");
+    }
+    fn run_case(&self, phase: &str, idx: u64, rng: &mut Rng, obs: &mut Obs) {
+        let targets = all_targets();
+        if phase == "known" {
+            // fixed reproducers of the two defects the property text announces
+            let c1 = Target { kind: Kind::Count, n: 1 };
+            let tilde = Target { kind: Kind::Mac, n: 2 };
+            let progs: Vec<Vec<Op>> = vec![
+                vec![
+                    Op::Begin,
+                    Op::Begin,
+                    Op::Assign { t: c1, v: 2, prefix_global: false, how: How::Set },
+                    Op::Assign { t: c1, v: 3, prefix_global: true, how: How::Set },
+                    Op::End,
+                    Op::ReadAll,
+                    Op::End,
+                    Op::ReadAll,
+                ],
+                vec![
+                    Op::Begin,
+                    Op::Assign { t: tilde, v: 7, prefix_global: false, how: How::Set },
+                    Op::End,
+                    Op::ReadAll,
+                ],
+            ];
+            if let Some(p) = progs.get(idx as usize) {
+                check_program(p, &targets, obs, "fixed reproducer");
+            }
+            return;
+        }
+        if let Some(k) = phase.strip_prefix("enum-") {
+            let k: usize = k.parse().unwrap_or(0);
+            let pair = ENUM_PAIRS[k];
+            // the GlobalDefs target is not in the pair => scope = prefix
+            let tset = vec![pair.0, pair.1, Target { kind: Kind::Count, n: 1 }, Target { kind: Kind::Count, n: 2 }, Target { kind: Kind::Count, n: 3 }];
+            let mut tset2 = vec![];
+            for t in tset {
+                if !tset2.contains(&t) {
+                    tset2.push(t);
+                }
+            }
+            match decode_enum(idx, enum_len(obs.tier), pair) {
+                Some(ops) => check_program(&ops, &tset2, obs, phase),
+                None => obs.skip("unbalanced-close"),
+            }
+            return;
+        }
+        let ops = gen_random_program(rng, &targets);
+        check_program(&ops, &targets, obs, "random");
+    }
 }
